@@ -81,3 +81,20 @@ _prop('C03',
       rule_texts=rules_text.RULE_TEXT,
       trusted=['str(numpy.float64) is the shortest round-trip repr'],
       assumptions=[])
+
+from . import rules_subset  # noqa: E402
+
+_prop('C14',
+      rules=[rules_subset.rule_ta_api, rules_subset.rule_ta_strip,
+             rules_subset.rule_ax_jsonkey, rules_subset.rule_or_refuse,
+             rules_subset.rule_ta_codec, rules_subset.rule_drop_empty],
+      minima={'TA-API': 150, 'TA-STRIP': 4, 'SB-SLICERS': 6,
+              'AX-JSONKEY': 9, 'AX-FWD': 2, 'OR-REFUSE': 3, 'TA-CODEC': 12,
+              'AX-IDAPI': 5, 'SB-EMPTY': 2},
+      rule_texts=rules_subset.RULE_TEXT,
+      trusted=['the installed numpy/scipy/h5py/pandas/click namespaces '
+               '(imported only to resolve attribute names)',
+               'h5py returns bytes for variable-length string datasets; '
+               "numpy's bytes->'U' conversion decodes ASCII"],
+      assumptions=['the JSON text scanner direct_parse_key is not decided '
+                   'beyond the normalisation of looked-up tokens'])
